@@ -102,17 +102,29 @@ def run(cmd, cwd=None, timeout=None, env=None, check=False, stdin=None):
 # building the real code
 
 def build_harness(ctx, race=False):
-    """Build vdriver (-tags verif) against /repo's current working tree."""
-    shutil.copy(os.path.join(REPO, "go.sum"), os.path.join(HARNESS, "go.sum"))
+    """Build vdriver (-tags verif) against the repository's current working tree (REPO), in a private copy of the
+    harness module so that concurrent checks, and checks run against a snapshot of the repository, do not interfere."""
+    src = harness_copy(ctx)
     out = os.path.join(ctx.dir("bin"), "vdriver" + ("-race" if race else ""))
     cmd = ["go", "build", "-tags", "verif"]
     if race:
         cmd.append("-race")
     cmd += ["-o", out, "./cmd/vdriver"]
-    rc, o = run(cmd, cwd=HARNESS, env=env_go(), timeout=900)
+    rc, o = run(cmd, cwd=src, env=env_go(), timeout=900)
     if rc != 0:
         raise Inconclusive("harness build failed (the working tree may not compile):\n" + o[-6000:])
     return out
+
+
+def harness_copy(ctx):
+    src = os.path.join(ctx.scratch, "harness_src")
+    if not os.path.exists(src):
+        shutil.copytree(HARNESS, src, ignore=shutil.ignore_patterns("go.sum"))
+        gm = open(os.path.join(src, "go.mod")).read()
+        gm = re.sub(r"replace go\.uber\.org/thriftrw => .*", "replace go.uber.org/thriftrw => %s" % REPO, gm)
+        open(os.path.join(src, "go.mod"), "w").write(gm)
+        shutil.copy(os.path.join(REPO, "go.sum"), os.path.join(src, "go.sum"))
+    return src
 
 
 def build_repo_bin(ctx, pkg, name, tags="verif"):
@@ -125,7 +137,7 @@ def build_repo_bin(ctx, pkg, name, tags="verif"):
 
 def build_harness_cmd(ctx, pkg, name):
     out = os.path.join(ctx.dir("bin"), name)
-    rc, o = run(["go", "build", "-tags", "verif", "-o", out, pkg], cwd=HARNESS, env=env_go(), timeout=900)
+    rc, o = run(["go", "build", "-tags", "verif", "-o", out, pkg], cwd=harness_copy(ctx), env=env_go(), timeout=900)
     if rc != 0:
         raise Inconclusive("build of %s failed:\n%s" % (pkg, o[-6000:]))
     return out
